@@ -25,6 +25,7 @@ TEMPLATES = {
     'T3': ['O', 'ZN', 'PA', 'NF', 'CH', 'FR'],
     'T4': ['CH', 'ZN', 'O5', 'FR'],
     'T5': ['O', 'RZ', 'CH', 'FR', 'ZN'],      # RZ = an add_zone call that is rejected (wrong-type value)
+    'T6': ['O', 'ZN', 'RZ', 'CH', 'FR'],      # the rejected call comes after an accepted one (the set is not empty)
 }
 MODES = ['distinct', 'default', 'partial']
 
@@ -40,7 +41,7 @@ def shards(tier):
         for combo in three:
             out.append({'kind': 'lf', 'mode': mode, 'templates': list(combo)})
     for mode in MODES:
-        for combo in (('T5', 'T3'), ('T3', 'T5'), ('T5', 'T5')):
+        for combo in (('T5', 'T3'), ('T3', 'T5'), ('T5', 'T5'), ('T6', 'T3'), ('T3', 'T6'), ('T6', 'T6'), ('T6', 'T5')):
             out.append({'kind': 'lf', 'mode': mode, 'templates': list(combo)})
     out.append({'kind': 'frames'})
     return out
